@@ -222,28 +222,34 @@ def run(prog, rep, tier, cfg):
             cs = [c for c in GA.calls if callee_is(ST + name)(c)]
             rep.need('K7', 'timeout:%s' % name, len(cs) == 1 and result_fate(GA, cs[0]) == 'try' and not GA.ok_returns_from([t for (t, _l) in GA.succ[to[0].bb]], blocked={cs[0].bb}),
                      'a timed-out proposal is cleaned up (%s)' % name, X.loc(GA))
-    TI = X.fn(ST + 'process_deal_init_timed_out', CR)
-    un = [c for c in TI.calls if callee_is(ST + 'unlock_balance')(c)]
-    sl = [c for c in TI.calls if callee_is(ST + 'slash_balance')(c)]
-    rep.need('K5', 'timeout:money-sites', len(un) == 3 and len(sl) == 1 and all(result_fate(TI, c) == 'try' for c in un + sl), 'three unlocks and one slash, all propagated', X.loc(TI))
-    want = [('F:DealProposal.client', 'C:DealProposal::total_storage_fee', 'E:Reason::ClientStorageFee'), ('F:DealProposal.client', 'F:DealProposal.client_collateral', 'E:Reason::ClientCollateral'),
-            ('F:DealProposal.provider', 'C:DealProposal::provider_balance_requirement', 'E:Reason::ProviderCollateral')]
-    for (party, amt, reason) in want:
-        hit = [c for c in un if has_atom(prog.slicer.operand(TI, c.args[4]), reason) and has_atom(prog.narrow.operand(TI, c.args[2]), party) and has_atom(prog.narrow.operand(TI, c.args[3]), amt)]
-        rep.need('K10', 'timeout:refund:%s' % reason.split('::')[-1], len(hit) == 1, 'unlock %s of %s under %s' % (amt, party, reason), X.loc(TI))
-    for c in sl:
-        X.arg_has('K10', 'timeout:slash-provider', c, 2, ['F:DealProposal.provider'], 'the provider is slashed')
-        X.arg_has('K10', 'timeout:slash-amount', c, 3, ['C:collateral_penalty_for_deal_activation_missed', 'F:DealProposal.provider_collateral'], 'by the missed-activation penalty of its collateral', narrow=False)
-    rep.need('K10', 'timeout:returns-slashed', has_atom(prog.narrow.local(TI, 0), 'C:collateral_penalty_for_deal_activation_missed'), 'returns the slashed amount to be burnt', X.loc(TI))
-    CP = X.try_fn('K10', 'policy::collateral_penalty_for_deal_activation_missed', CR)
-    if CP is not None:
-        a = prog.slicer.local(CP, 0)
-        rep.need('K10', 'timeout:penalty-is-full-collateral', has_atom(a, 'P:1') and not any(x[0] == 'OP' for x in a) and not has_atom(a, 'C:::div') and not has_atom(a, 'C:::mul'),
-                 'the missed-activation penalty is the whole provider collateral', X.loc(CP))
+    missed_activation_money(prog, rep, X)
     slash_burnt(prog, rep, X)
     # ---- running totals (amounts, power, datacap) accumulated in loops keep their earlier contributions
     X.accumulator_integrity('K12', 'running-totals', ['fil_actor_market'], 'running totals of amounts')
 
+
+
+def missed_activation_money(prog, rep, X, prefix=''):
+    """a proposal not activated in time: client fully refunded, provider collateral slashed in full, the rest of nothing kept
+    (also evaluated under C07)"""
+    TI = X.fn(ST + 'process_deal_init_timed_out', CR)
+    un = [c for c in TI.calls if callee_is(ST + 'unlock_balance')(c)]
+    sl = [c for c in TI.calls if callee_is(ST + 'slash_balance')(c)]
+    rep.need('K5', prefix + 'timeout:money-sites', len(un) == 3 and len(sl) == 1 and all(result_fate(TI, c) == 'try' for c in un + sl), 'three unlocks and one slash, all propagated', X.loc(TI))
+    want = [('F:DealProposal.client', 'C:DealProposal::total_storage_fee', 'E:Reason::ClientStorageFee'), ('F:DealProposal.client', 'F:DealProposal.client_collateral', 'E:Reason::ClientCollateral'),
+            ('F:DealProposal.provider', 'C:DealProposal::provider_balance_requirement', 'E:Reason::ProviderCollateral')]
+    for (party, amt, reason) in want:
+        hit = [c for c in un if has_atom(prog.slicer.operand(TI, c.args[4]), reason) and has_atom(prog.narrow.operand(TI, c.args[2]), party) and has_atom(prog.narrow.operand(TI, c.args[3]), amt)]
+        rep.need('K10', prefix + 'timeout:refund:%s' % reason.split('::')[-1], len(hit) == 1, 'unlock %s of %s under %s' % (amt, party, reason), X.loc(TI))
+    for c in sl:
+        X.arg_has('K10', prefix + 'timeout:slash-provider', c, 2, ['F:DealProposal.provider'], 'the provider is slashed')
+        X.arg_has('K10', prefix + 'timeout:slash-amount', c, 3, ['C:collateral_penalty_for_deal_activation_missed', 'F:DealProposal.provider_collateral'], 'by the missed-activation penalty of its collateral', narrow=False)
+    rep.need('K10', prefix + 'timeout:returns-slashed', has_atom(prog.narrow.local(TI, 0), 'C:collateral_penalty_for_deal_activation_missed'), 'returns the slashed amount to be burnt', X.loc(TI))
+    CP = X.try_fn('K10', 'policy::collateral_penalty_for_deal_activation_missed', CR)
+    if CP is not None:
+        a = prog.slicer.local(CP, 0)
+        rep.need('K10', prefix + 'timeout:penalty-is-full-collateral', has_atom(a, 'P:1') and not any(x[0] == 'OP' for x in a) and not has_atom(a, 'C:::div') and not has_atom(a, 'C:::mul'),
+                 'the missed-activation penalty is the whole provider collateral', X.loc(CP))
 
 
 def slash_burnt(prog, rep, X, prefix=''):
